@@ -6,54 +6,86 @@ act on the three components of the state, and what histories can be cut into.
 namespace Goyang.Lemmas.Session
 open Goyang.Model Goyang.Model.Session Goyang.Spec.Session
 
+/-! ### the Lean front end -/
+
+/-- `loadText` changes the registry only when it answers `accepted` (so ignoring the registry it
+returns beside another answer, as `tryLoadSrc` does, loses nothing). -/
+theorem loadText_rejected_reg (reg : Registry) (name text : List UInt8)
+    (h : (loadText reg name text).2 ≠ .accepted) : (loadText reg name text).1 = reg := by
+  unfold loadText at h ⊢
+  repeat' split
+  all_goals first | rfl | (exfalso; exact h rfl)
+
+theorem loadSrc_text (reg : Registry) (name text : List UInt8) :
+    loadSrc reg (.text name text) = (loadText reg name text).1 := by
+  unfold loadSrc tryLoadSrc
+  split
+  · rename_i r hr
+    split at hr
+    · rename_i r' heq; cases hr; rw [heq]
+    · cases hr
+  · rename_i e he
+    split at he
+    · cases he
+    · rename_i r' res hne heq
+      rw [heq]
+      have := loadText_rejected_reg reg name text (by rw [heq]; exact fun h => hne r' (by rw [h]))
+      rw [heq] at this
+      exact this.symm
+
+theorem loadSrc_stmts (reg : Registry) (f : SrcFile) (h : ∃ r, tryLoad reg f = .ok r) :
+    loadSrc reg (.stmts f true) = loadFile reg f := by
+  obtain ⟨r, hr⟩ := h
+  simp only [loadSrc, tryLoadSrc, Bool.not_true, Bool.false_eq_true, if_false, hr, loadFile_of_ok reg r f hr]
+
 /-! ### one step -/
 
 theorem step_load_bad (plug : Registry → Plug) (s : Session) (f : SrcFile) :
-    step plug s (.load f false) = (s, .rejected .build) := rfl
+    step plug s (.load (.stmts f false)) = (s, .rejected .build) := rfl
 
-theorem step_load_ok (plug : Registry → Plug) (s : Session) (f : SrcFile) (r : Registry) (h : tryLoad s.reg f = .ok r) :
-    step plug s (.load f true) = ({ s with reg := r }, .accepted) := by
-  simp only [step, Bool.not_true, Bool.false_eq_true, if_false, h]
+theorem step_load_ok (plug : Registry → Plug) (s : Session) (src : Src) (r : Registry) (h : tryLoadSrc s.reg src = .ok r) :
+    step plug s (.load src) = ({ s with reg := r }, .accepted) := by
+  simp only [step, h]
 
-theorem step_load_dup (plug : Registry → Plug) (s : Session) (f : SrcFile) (e : Reject) (h : tryLoad s.reg f = .error e) :
-    step plug s (.load f true) = (s, .rejected e) := by
-  simp only [step, Bool.not_true, Bool.false_eq_true, if_false, h]
+theorem step_load_dup (plug : Registry → Plug) (s : Session) (src : Src) (e : Reject) (h : tryLoadSrc s.reg src = .error e) :
+    step plug s (.load src) = (s, .rejected e) := by
+  simp only [step, h]
 
 theorem step_process (plug : Registry → Plug) (s : Session) :
     step plug s .process =
       ({ s with cache := some (processAll s.reg s.opts (plug s.reg)) }, .processed (processAll s.reg s.opts (plug s.reg))) := rfl
 
-/-- A load answers `accepted` or `rejected`, nothing else; accepted exactly when the text was
-built and every statement was added. -/
-theorem step_load_cases (plug : Registry → Plug) (s : Session) (f : SrcFile) (ok : Bool) :
-    (∃ r, ok = true ∧ tryLoad s.reg f = .ok r ∧ step plug s (.load f ok) = ({ s with reg := r }, .accepted)) ∨
-    (∃ w, step plug s (.load f ok) = (s, .rejected w)) := by
-  cases ok with
-  | false => exact .inr ⟨.build, rfl⟩
-  | true =>
-    cases h : tryLoad s.reg f with
-    | ok r => exact .inl ⟨r, rfl, rfl, step_load_ok plug s f r h⟩
-    | error e => exact .inr ⟨e, step_load_dup plug s f e h⟩
+/-- A load answers `accepted` or `rejected`, nothing else; accepted exactly when `tryLoadSrc`
+gave a new registry. -/
+theorem step_load_cases (plug : Registry → Plug) (s : Session) (src : Src) :
+    (∃ r, tryLoadSrc s.reg src = .ok r ∧ step plug s (.load src) = ({ s with reg := r }, .accepted)) ∨
+    (∃ w, step plug s (.load src) = (s, .rejected w)) := by
+  cases h : tryLoadSrc s.reg src with
+  | ok r => exact .inl ⟨r, rfl, step_load_ok plug s src r h⟩
+  | error e => exact .inr ⟨e, step_load_dup plug s src e h⟩
+
+theorem loadSrc_of_ok (reg r : Registry) (src : Src) (h : tryLoadSrc reg src = .ok r) : loadSrc reg src = r := by
+  simp only [loadSrc, h]
 
 /-- A rejected load leaves the state as it was: equal, not merely equivalent. -/
-theorem step_rejected_state (plug : Registry → Plug) (s : Session) (f : SrcFile) (ok : Bool) (w : Reject)
-    (h : (step plug s (.load f ok)).2 = .rejected w) : (step plug s (.load f ok)).1 = s := by
-  rcases step_load_cases plug s f ok with ⟨r, _, _, e⟩ | ⟨w', e⟩
+theorem step_rejected_state (plug : Registry → Plug) (s : Session) (src : Src) (w : Reject)
+    (h : (step plug s (.load src)).2 = .rejected w) : (step plug s (.load src)).1 = s := by
+  rcases step_load_cases plug s src with ⟨r, _, e⟩ | ⟨w', e⟩
   · rw [e] at h; cases h
   · rw [e]
 
 /-- An accepted load: the text was built and `tryLoad` gave the new registry. -/
-theorem step_accepted (plug : Registry → Plug) (s : Session) (f : SrcFile) (ok : Bool)
-    (h : (step plug s (.load f ok)).2 = .accepted) :
-    ∃ r, tryLoad s.reg f = .ok r ∧ (step plug s (.load f ok)).1 = { s with reg := r } := by
-  rcases step_load_cases plug s f ok with ⟨r, _, hr, e⟩ | ⟨w', e⟩
+theorem step_accepted (plug : Registry → Plug) (s : Session) (src : Src)
+    (h : (step plug s (.load src)).2 = .accepted) :
+    ∃ r, tryLoadSrc s.reg src = .ok r ∧ (step plug s (.load src)).1 = { s with reg := r } := by
+  rcases step_load_cases plug s src with ⟨r, hr, e⟩ | ⟨w', e⟩
   · exact ⟨r, hr, by rw [e]⟩
   · rw [e] at h; cases h
 
 /-- No op writes the options. -/
 theorem step_opts (plug : Registry → Plug) (s : Session) (op : Op) : (step plug s op).1.opts = s.opts := by
   cases op with
-  | load f ok => rcases step_load_cases plug s f ok with ⟨r, _, _, e⟩ | ⟨w, e⟩ <;> rw [e]
+  | load src => rcases step_load_cases plug s src with ⟨r, _, e⟩ | ⟨w, e⟩ <;> rw [e]
   | process => rfl
   | read key path =>
     simp only [step]
@@ -66,10 +98,10 @@ theorem step_opts (plug : Registry → Plug) (s : Session) (op : Op) : (step plu
         · split <;> rfl
 
 /-- `process` and `read` do not write the registry. -/
-theorem step_reg_of_not_load (plug : Registry → Plug) (s : Session) (op : Op) (h : ∀ f ok, op ≠ .load f ok) :
+theorem step_reg_of_not_load (plug : Registry → Plug) (s : Session) (op : Op) (h : ∀ src, op ≠ .load src) :
     (step plug s op).1.reg = s.reg := by
   cases op with
-  | load f ok => exact absurd rfl (h f ok)
+  | load src => exact absurd rfl (h src)
   | process => rfl
   | read key path =>
     simp only [step]
@@ -97,7 +129,7 @@ theorem step_read_out (plug : Registry → Plug) (s : Session) (key path : Strin
 theorem step_nonread_out (plug : Registry → Plug) (s : Session) (op : Op) (h : op.isRead = false) :
     (step plug s op).2.isReadOut = false := by
   cases op with
-  | load f ok => rcases step_load_cases plug s f ok with ⟨r, _, _, e⟩ | ⟨w, e⟩ <;> rw [e] <;> rfl
+  | load src => rcases step_load_cases plug s src with ⟨r, _, e⟩ | ⟨w, e⟩ <;> rw [e] <;> rfl
   | process => rfl
   | read key path => cases h
 
@@ -109,17 +141,14 @@ theorem step_core (plug : Registry → Plug) (s t : Session) (op : Op) (hr : s.r
   cases op with
   | read key path => cases hop
   | process => simp only [step_process, hr, ho, and_self]
-  | load f ok =>
-    cases ok with
-    | false => exact ⟨rfl, hr⟩
-    | true =>
-      cases h : tryLoad s.reg f with
-      | ok r =>
-        rw [step_load_ok plug s f r h, step_load_ok plug t f r (hr ▸ h)]
-        exact ⟨rfl, rfl⟩
-      | error e =>
-        rw [step_load_dup plug s f e h, step_load_dup plug t f e (hr ▸ h)]
-        exact ⟨rfl, hr⟩
+  | load src =>
+    cases h : tryLoadSrc s.reg src with
+    | ok r =>
+      rw [step_load_ok plug s src r h, step_load_ok plug t src r (hr ▸ h)]
+      exact ⟨rfl, rfl⟩
+    | error e =>
+      rw [step_load_dup plug s src e h, step_load_dup plug t src e (hr ▸ h)]
+      exact ⟨rfl, hr⟩
 
 /-! ### histories -/
 
@@ -149,20 +178,20 @@ theorem runFrom_opts (plug : Registry → Plug) (s : Session) (h : List Op) : (r
 /-- The registry a history leaves behind is the registry obtained by loading, in order, exactly
 the texts whose load was answered `accepted`. -/
 theorem runFrom_reg (plug : Registry → Plug) (s : Session) (h : List Op) :
-    (runFrom plug s h).1.reg = (acceptedTexts h (runFrom plug s h).2).foldl loadFile s.reg := by
+    (runFrom plug s h).1.reg = (acceptedTexts h (runFrom plug s h).2).foldl loadSrc s.reg := by
   induction h generalizing s with
   | nil => rfl
   | cons op ops ih =>
     rw [runFrom_cons]
     cases op with
-    | load f ok =>
-      rcases step_load_cases plug s f ok with ⟨r, _, hr, e⟩ | ⟨w, e⟩
-      · simp only [e, acceptedTexts, List.foldl_cons, loadFile_of_ok _ _ _ hr, ih]
+    | load src =>
+      rcases step_load_cases plug s src with ⟨r, hr, e⟩ | ⟨w, e⟩
+      · simp only [e, acceptedTexts, List.foldl_cons, loadSrc_of_ok _ _ _ hr, ih]
       · simp only [e, acceptedTexts, ih]
     | process =>
       simp only [acceptedTexts, step_process, ih]
     | read key path =>
-      have hr := step_reg_of_not_load plug s (.read key path) (fun _ _ h => by cases h)
+      have hr := step_reg_of_not_load plug s (.read key path) (fun _ h => by cases h)
       have : acceptedTexts (Op.read key path :: ops)
           ((step plug s (.read key path)).2 :: (runFrom plug (step plug s (.read key path)).1 ops).2) =
           acceptedTexts ops (runFrom plug (step plug s (.read key path)).1 ops).2 := by
@@ -187,10 +216,10 @@ theorem batch_replays (plug : Registry → Plug) (h : List Op) (s t : Session) (
   | cons op ops ih =>
     rw [runFrom_cons]
     cases op with
-    | load f ok =>
-      rcases step_load_cases plug s f ok with ⟨r, _, hr, e⟩ | ⟨w, e⟩
-      · have ht : step plug t (.load f true) = ({ t with reg := r }, .accepted) :=
-          step_load_ok plug t f r (hst ▸ hr)
+    | load src =>
+      rcases step_load_cases plug s src with ⟨r, hr, e⟩ | ⟨w, e⟩
+      · have ht : step plug t (.load src) = ({ t with reg := r }, .accepted) :=
+          step_load_ok plug t src r (hst ▸ hr)
         have := ih { s with reg := r } { t with reg := r } rfl
         simp only [e, acceptedTexts, loads, List.map_cons, runFrom_cons, ht]
         exact ⟨this.1, by rw [← loads, this.2]⟩
@@ -200,7 +229,7 @@ theorem batch_replays (plug : Registry → Plug) (h : List Op) (s t : Session) (
       simp only [acceptedTexts, step_process]
       exact ih _ t hst
     | read key path =>
-      have hr := step_reg_of_not_load plug s (.read key path) (fun _ _ h => by cases h)
+      have hr := step_reg_of_not_load plug s (.read key path) (fun _ h => by cases h)
       have ho := step_read_out plug s key path
       have : acceptedTexts (Op.read key path :: ops)
           ((step plug s (.read key path)).2 :: (runFrom plug (step plug s (.read key path)).1 ops).2) =
@@ -226,11 +255,11 @@ theorem runFrom_skip_reads (plug : Registry → Plug) (h : List Op) (s t : Sessi
     cases hop : op.isRead with
     | true =>
       cases op with
-      | load f ok => cases hop
+      | load src => cases hop
       | process => cases hop
       | read key path =>
         have h1 := step_read_out plug s key path
-        have h2 := step_reg_of_not_load plug s (.read key path) (fun _ _ h => by cases h)
+        have h2 := step_reg_of_not_load plug s (.read key path) (fun _ h => by cases h)
         have h3 := step_opts plug s (.read key path)
         have := ih (step plug s (.read key path)).1 t (h2.trans hr) (h3.trans ho)
         simp only [runFrom_cons, List.filter_cons, h1, Op.isRead, Bool.not_true, Bool.false_eq_true, if_false]
